@@ -6,6 +6,22 @@ conf = json.load(open(os.path.join(ROOT, "checks.json")))
 props = [json.loads(l) for l in open(os.path.join(ROOT, "properties.jsonl"))]
 hooks = subprocess.run(["git", "-C", "/repo", "log", "--format=%H %s"], stdout=subprocess.PIPE, text=True).stdout.splitlines()
 hook_commits = [l.split()[0] for l in hooks if " verif-hooks:" in l]
+def technique(c):
+    t = c["technique"]
+    # strip hand-written lane remarks, then state the lanes actually configured
+    t = t.split("; valgrind/ASan lanes")[0].split("; thorough tier adds")[0]
+    lanes = c.get("lanes", [])
+    if lanes:
+        names = {"valgrind": "valgrind memcheck", "asan": "AddressSanitizer build", "miri": "Miri over /verif/miri-shim"}
+        kinds = []
+        for l in lanes:
+            n = names.get(l["kind"], l["kind"])
+            if n not in kinds:
+                kinds.append(n)
+        t += "; thorough tier adds sanitizer lanes running the same monitors at reduced scale (" + ", ".join(kinds) + "), a sanitizer report counts as a violation"
+    return t
+
+
 checks, na = [], []
 for p in props:
     pid = p["id"]
@@ -22,7 +38,7 @@ for p in props:
         "engine": "agv",
         "level_claimed": {"category": "exploration", "text": c["level_text"], "design_ref": "DESIGN.md section 6 (%s)" % pid},
         "level_note": c["level_note"],
-        "technique": c["technique"],
+        "technique": technique(c),
     })
 m = {
     "version": 1,
@@ -37,11 +53,11 @@ m = {
     "engines": [{
         "name": "agv", "path": "/verif/harness",
         "serves_properties": [c["property_id"] for c in checks],
-        "kind_free_text": "Rust harness crate driving the real components (path dependency on /repo) under seeded hostile workloads, with reference-model monitors, wire-level mutation oracles, whole-node executions over an in-memory network with virtual time, and valgrind/ASan lanes; driver ./check shards over 16 processes and merges the observed events into evidence",
+        "kind_free_text": "Rust harness crate driving the real components (path dependency on /repo) under seeded hostile workloads, with reference-model monitors, wire-level mutation oracles, whole-node executions over an in-memory network with virtual time, and valgrind/ASan/Miri lanes in the thorough tier; driver ./check shards over 16 processes and merges the observed events into evidence",
     }],
     "checks": checks,
     "not_applicable": na,
-    "notes": "Runtime monitoring only: every verdict is 'held on the executions observed'. Exit 2 = inconclusive (never a VIOLATION line). Genuine defects repaired by fix: commits or listed in known_findings.jsonl; see DESIGN.md section 8.",
+    "notes": "Runtime monitoring only: every verdict is 'held on the executions observed'. Exit 2 = inconclusive (never a VIOLATION line). Genuine defects repaired by fix: commits or listed in known_findings.jsonl; see DESIGN.md sections 12-14 (as built, findings, false alarms, seeded changes).",
 }
 json.dump(m, open(os.path.join(ROOT, "MANIFEST.json"), "w"), indent=1)
 print("claimed:", [c["property_id"] for c in checks], "not claimed:", [n["property_id"] for n in na])
